@@ -560,7 +560,8 @@ def step (s : Sys) : Ev → Option Sys
       | some nw, some k =>
         some (s.setInst i { x with pool := x.pool.dropLast.set k nw, poolEvicted := key :: x.poolEvicted,
                                    evictedEver := key :: x.evictedEver, evictPending := false })
-      | _, _ => none
+      -- … unless this is a late waiter of an entry evicted earlier (its report may arrive at any time)
+      | _, _ => if x.evictedEver.contains key then some s else none
     else
       -- another waiter of an already evicted entry (its key stays in the pool's lookup table)
       if x.evictedEver.contains key then some s else none
